@@ -15,6 +15,8 @@ CLAIMS = {
          "Go channel/select/defer semantics and scheduling are assumed; timing bounds (500 ms cancel, 200 ms settle) are observed only.", "6/C09"),
  "C19": ("Theorems for ALL request byte strings, trees, whitelists and Origin values: clean is rooted without '..', the resolved path is inside frontend/dist, a directory is never listed or answered with content, a File answer carries exactly the bytes of the regular file at the resolved path, CORS header = whitelist-membership spec (and refutation of the unrepaired '!'-joined test). Correspondence: real handler obtained through Module.Configure + DefaultMux under httptest over generated trees with canary files outside dist; raw request targets; path.Clean / URL decoding / mux decision compared per request.",
          "Modelled (compared per case, not verified): path.Clean, net/url decoding, ServeMux cleanPath/redirect, http.Dir.Open, serveFile. Outside the model: symlinks, permissions, NAME_MAX, Range/conditional requests.", "6/C19"),
+ "C14": ("Theorems for EVERY node forest (whatever html.ParseFragment returns for any byte string) and every well-formed allow-list: output is in the SafeDoc grammar (escaped text, start/end tags of allow-listed elements with only allow-listed attributes and escaped values), every '<' opens an allow-listed tag, empty allow-list => no '<', comments/doctypes contribute nothing, text content round-trips through escaping; soundness and fuel of the executable SafeDoc checker. Correspondence: real StriptagsFunc.Func and html.ParseFragment on generated/mutated fragments; forest dumped to Gallina, model output and checker judged inside Coq; x/net/html Tokenizer as independent oracle on Go's output.",
+         "html.ParseFragment/Tokenizer (x/net/html) are outside the model; html.EscapeString modelled as esc6; ToLower ASCII only; a browser is represented by the SafeDoc grammar.", "6/C14"),
 }
 TECH = "Coq proof over hand-written model + differential correspondence check judged in Coq"
 props = [json.loads(l)["id"] for l in open(os.path.join(V, "properties.jsonl"))]
